@@ -1,0 +1,80 @@
+//! Read-only hooks for external verification harnesses (feature `verif`)
+//!
+//! Nothing here changes the behaviour of the library: the functions only expose values that
+//! are otherwise private (the combined occupancy set of a [`Board`], the attack and between
+//! tables, and the index arithmetic of the magic lookup).
+
+use crate::bitboard::Bitboard;
+use crate::board::Board;
+use crate::types::{Color, Coord};
+use crate::{attack, between};
+
+/// Combined occupancy set stored in the board
+#[inline]
+pub fn board_all(b: &Board) -> Bitboard {
+    b.all
+}
+
+/// King attack table entry
+#[inline]
+pub fn king(c: Coord) -> Bitboard {
+    attack::king(c)
+}
+
+/// Knight attack table entry
+#[inline]
+pub fn knight(c: Coord) -> Bitboard {
+    attack::knight(c)
+}
+
+/// Pawn attack table entry
+#[inline]
+pub fn pawn(color: Color, c: Coord) -> Bitboard {
+    attack::pawn(color, c)
+}
+
+/// Rook-line attack set as used by the library
+#[inline]
+pub fn rook(c: Coord, occupied: Bitboard) -> Bitboard {
+    attack::rook(c, occupied)
+}
+
+/// Bishop-line attack set as used by the library
+#[inline]
+pub fn bishop(c: Coord, occupied: Bitboard) -> Bitboard {
+    attack::bishop(c, occupied)
+}
+
+/// Strictly-between set on a diagonal
+#[inline]
+pub fn bishop_strict(src: Coord, dst: Coord) -> Bitboard {
+    between::bishop_strict(src, dst)
+}
+
+/// Strictly-between set on a file or rank
+#[inline]
+pub fn rook_strict(src: Coord, dst: Coord) -> Bitboard {
+    between::rook_strict(src, dst)
+}
+
+/// Diagonal alignment predicate
+#[inline]
+pub fn is_bishop_valid(src: Coord, dst: Coord) -> bool {
+    between::is_bishop_valid(src, dst)
+}
+
+/// File/rank alignment predicate
+#[inline]
+pub fn is_rook_valid(src: Coord, dst: Coord) -> bool {
+    between::is_rook_valid(src, dst)
+}
+
+/// See [`attack::verif_magic_probe`]
+#[inline]
+pub fn magic_probe(
+    is_rook: bool,
+    c: Coord,
+    occupied: Bitboard,
+) -> (usize, usize, usize, Bitboard, Bitboard) {
+    attack::verif_magic_probe(is_rook, c, occupied)
+}
